@@ -60,6 +60,8 @@ var nitroFrame = regexp.MustCompile(`(?m)^(github\.com/couchbase/nitro[^\s(]*(?:
 // sequence is behaviour of the real code: it becomes a "Panic" event (judged by the trace specification)
 // instead of killing the driver.
 func guarded(t *tr.W, f func()) (panicked bool) {
+	// an access to poisoned (freed) memory becomes a panic of this goroutine instead of a fatal error of the process
+	defer debug.SetPanicOnFault(debug.SetPanicOnFault(true))
 	defer func() {
 		if x := recover(); x != nil {
 			panicked = true
